@@ -16,7 +16,9 @@ import (
 	"github.com/ipld/go-ipld-prime/codec/dagcbor"
 	"github.com/ipld/go-ipld-prime/datamodel"
 	"github.com/storacha/go-ucanto/client"
+	"github.com/storacha/go-ucanto/core/dag/blockstore"
 	"github.com/storacha/go-ucanto/core/invocation"
+	"github.com/storacha/go-ucanto/core/message"
 	"github.com/storacha/go-ucanto/core/ipld"
 	"github.com/storacha/go-ucanto/core/receipt/fx"
 	"github.com/storacha/go-ucanto/core/result/ok"
@@ -204,12 +206,27 @@ func (b *Batch) Run(channel func(srv server.ServerView) transport.Channel) *Batc
 		// the single-invocation entry point must give the same receipt (and run nothing more than the model says)
 		ncalls := len(obs.Calls)
 		seen := map[string]bool{}
+		// Run is given each invocation as the server sees it in the request: a view over ALL blocks of the message
+		// (a proof cited by link only may travel with another invocation of the same batch)
+		var all []invocation.Invocation
+		for _, n := range b.Invs {
+			all = append(all, b.W.built[n].Dlg)
+		}
+		var msgBlocks blockstore.BlockReader
+		if msg, err := message.Build(all, nil); err == nil {
+			msgBlocks, _ = blockstore.NewBlockReader(blockstore.WithBlocksIterator(msg.Blocks()))
+		}
 		for _, n := range b.Invs {
 			inv := b.W.built[n].Dlg
 			if seen[inv.Link().String()] {
 				continue
 			}
 			seen[inv.Link().String()] = true
+			if msgBlocks != nil {
+				if v, err := invocation.NewInvocationView(inv.Link(), msgBlocks); err == nil {
+					inv = v
+				}
+			}
 			var cls string
 			if p := recovered(func() {
 				rc, err := srv.Run(inv)
